@@ -41,7 +41,9 @@ QuickPars == {
     Par("1to2", <<45, 2>>, 30, <<1, 1>>,   Id,            <<0, 0, 0>>,  <<1, 2, 3, 4>>,    X0),
     Par("1to2", <<27, 2>>, 20, <<27, 20>>, Rx1,           <<5, -3, 2>>, <<3, 1, 4, 2, 5>>, X0),
     Par("2to1", <<45, 2>>, 30, <<1, 2>>,   Mul(Rz1, Rx1), <<-4, 0, 7>>, <<1, 3, 4, 2>>,    X0),
-    Par("2to1", <<37, 2>>, 25, <<27, 20>>, Id,            <<0, 0, 0>>,  <<4, 3, 5, 2, 1>>, X2) }
+    Par("2to1", <<37, 2>>, 25, <<27, 20>>, Id,            <<0, 0, 0>>,  <<4, 3, 5, 2, 1>>, X2),
+    \* maximum thickness exactly 4 voxels at voxel size 1: pairs straight across the z = 4 gap lie exactly on the boundary
+    Par("1to2", <<16, 1>>, 30, <<1, 1>>,   Rz1,           <<2, 0, -1>>, <<2, 1, 4, 3>>,    X0) }
 
 ThoroughPars == QuickPars \cup {
     Par("1to2", <<37, 2>>, 25, <<3, 4>>,   Ry1,           <<1, 1, 1>>,  <<4, 2, 5, 1, 3>>, X1),
